@@ -663,6 +663,13 @@ def cli_roundtrip(chk, tuc_binary, n, want=None):
 
 
 def lying_size_stdin(chk, tuc_binary, n, want=None):
+    # (one helper process per case: at most 150 alive at a time)
+    while n > 0:
+        _lying_size_stdin(chk, tuc_binary, min(n, 150), want)
+        n -= 150
+
+
+def _lying_size_stdin(chk, tuc_binary, n, want=None):
     """stdin is a file whose metadata LIES about its content: procfs files report st_size = 0 and have content (`tuc … < /proc/version` is
     ordinary use).  Whatever main or a reader derives from the metadata of stdin (a buffer capacity, a read size, a shortcut for 'empty'
     files) must not change what is cut: the same command line is run with stdin = that file and with stdin = a pipe carrying the same bytes.
